@@ -65,6 +65,7 @@ MUTANTS = [
     ("c05-drop-nonnote", "C05", ABS, "            else:\n                valid_positions += possible_positions\n                message_to_append.time = valid_positions[find_minimal_distance(message_original_time, valid_positions)]",
      "            else:\n                valid_positions += possible_positions\n                message_to_append.time = valid_positions[find_minimal_distance(message_original_time, valid_positions)]\n                if message_to_append.time == 0:\n                    message_to_append = None", {"KEEP"}),
     # ---- C06
+    ("c05-overlap-start-not-end", "C05", ABS, "or not message_to_append.time < message_timings[note_key][1]:", "or not message_to_append.time < message_timings[note_key][0]:", {"OVERLAP"}),
     ("c06-pair-index-before-append", "C06", ABS, "                    message_pairings[msg.channel].append([msg])\n                    open_messages[msg.channel][msg.note] = len(message_pairings[msg.channel]) - 1",
      "                    open_messages[msg.channel][msg.note] = len(message_pairings[msg.channel]) - 1\n                    message_pairings[msg.channel].append([msg])", {"PAIR"}),
     ("c06-completion-wrong-length", "C06", ABS, "time=pairing[0].time + standard_length))", "time=standard_length))", {"PAIR"}),
